@@ -20,12 +20,12 @@ structure ClsDef where
   fields : List (String × Json)
   subs : List (String × String × Bool)
   blocks : List (String × Json)
-  olists : List (String × String × Nat × Bool) := []     -- lists of objects: name, element class, length, random
+  olists : List (String × String × Nat × Bool × Bool) := []     -- lists of objects: name, element class, length, random, random size
 
 inductive Member
   | scalar (decl : Json)
   | sub (cls : String) (rand : Bool)
-  | olist (cls : String) (n : Nat) (rand : Bool)
+  | olist (cls : String) (n : Nat) (rand : Bool) (randsz : Bool)
 
 structure ScalarInfo where
   path : List String
@@ -48,7 +48,7 @@ def clsOf (classes : Json) (c : String) : Except String ClsDef := do
   let subs ← (← getA j "subs").mapM fun f => do pure ((← getS f "name"), (← getS f "cls"), (← getB f "rand"))
   let blocks ← (← getA j "blocks").mapM fun b => do pure ((← getS b "name"), (← b.getObjVal? "stmts"))
   let olists ← ((getA j "olists").toOption.getD []).mapM fun f => do
-    pure ((← getS f "name"), (← getS f "cls"), (← getN f "n"), (← getB f "rand"))
+    pure ((← getS f "name"), (← getS f "cls"), (← getN f "n"), (← getB f "rand"), (getB f "randsz").toOption.getD false)
   pure ⟨base, fields, subs, blocks, olists⟩
 
 /-- class chain, base first -/
@@ -63,7 +63,7 @@ partial def chain (classes : Json) (c : String) (fuel : Nat) : Except String (Li
 def membersOf (ch : List ClsDef) : List (String × Member) :=
   let defs : List (String × Member) := ch.flatMap fun d =>
     d.fields.map (fun f => (f.1, Member.scalar f.2)) ++ d.subs.map (fun s => (s.1, Member.sub s.2.1 s.2.2)) ++
-    d.olists.map (fun l => (l.1, Member.olist l.2.1 l.2.2.1 l.2.2.2))
+    d.olists.map (fun l => (l.1, Member.olist l.2.1 l.2.2.1 l.2.2.2.1 l.2.2.2.2))
   sortByName (mostDerived defs)
 
 def blocksOf (ch : List ClsDef) : List (String × Json) :=
@@ -91,18 +91,20 @@ partial def instantiate (classes : Json) (c : String) (path : List String) (decl
       let n ← instantiate classes cls (path ++ [name]) r randMode (fuel - 1)
       nodes := nodes ++ [n]
       kids := kids ++ [(name, true, cid)]
-    | .olist cls len r =>
+    | .olist cls len r rsz =>
       -- `FieldArrayModel` of objects: a composite holding the `size` scalar (never random for a list of
       -- fixed length) and the element objects `name[k]`, which take the list's declared randomness
       let lid := (← get).objs.size
       let lpath := path ++ [name]
       modify fun st => { st with objs := st.objs.push ⟨lpath, "", []⟩ }
       let szId := (← get).scalars.size
-      let szDecl := Json.mkObj [("name", Json.str "size"), ("w", jNat 32), ("s", Json.bool false), ("rand", Json.bool false),
-        ("val", jNat len), ("enums", Json.null)]
+      -- a list of random size: its size field is a solver variable in every call that reaches the list
+      -- (`pre_randomize` forces the flag), bounded by the number of objects the user put in (`array_sz_c`)
+      let szDecl := Json.mkObj [("name", Json.str "size"), ("w", jNat 32), ("s", Json.bool false), ("rand", Json.bool rsz),
+        ("val", jNat len), ("enums", Json.null), ("forced", Json.bool rsz), ("cap", jNat len)]
       modify fun st => { st with scalars := st.scalars.push ⟨lpath ++ ["size"], szDecl, lid⟩ }
       let mut lkids : List (String × Bool × Nat) := [("size", false, szId)]
-      let mut lnodes : List Node := [Node.scalar szId false false]
+      let mut lnodes : List Node := [Node.scalar szId rsz rsz]
       for k in List.range len do
         let en := name ++ "[" ++ toString k ++ "]"
         let eid := (← get).objs.size
@@ -218,7 +220,12 @@ def handleCall (j : Json) : Except String Json := do
   let targetPath ← (← getA j "target").mapM (·.getStr?)
   let tid ← resolveObj inst 0 targetPath
   let tnode ← match findObjNode tree tid with | some n => pure n | none => throw "target not found"
-  let (usedS, usedO) := usedInCall tnode
+  let (usedS0, usedO) := usedInCall tnode
+  -- `FieldArrayModel.pre_randomize`: the size of a random-size list below the target is random in the call
+  let forced := fun (sid : Nat) => match inst.scalars[sid]? with
+    | some si => (si.decl.getObjVal? "forced").toOption.bind (·.getBool?.toOption) |>.getD false
+    | none => false
+  let usedS := usedS0.map fun p => if forced p.1 then (p.1, true) else p
   let toggles : Toggles ← cmHist.mapM fun (p, b, v) => do pure ((← resolveObj inst 0 p), b, v)
   let valsJ ← j.getObjVal? "values"
   -- fields: every scalar of the tree; random in the call iff used
@@ -267,6 +274,15 @@ def handleCall (j : Json) : Except String Json := do
       let rj ← resolveJson inst tid il
       tops := tops ++ (← (← rj.getArr?).toList.mapM (stmtOf fk))
   | none => pure ()
+  -- `ArrayConstraintBuilder` phase 0: a random-size list of objects cannot grow beyond the objects it holds
+  -- (block `array_sz_c`, appended after every other constraint of the call)
+  for p in usedS do
+    if forced p.1 then
+      match inst.scalars[p.1]? with
+      | some si =>
+        let cap := (si.decl.getObjVal? "cap").toOption.bind (·.getNat?.toOption) |>.getD 0
+        tops := tops ++ [Stmt.expr (.bin .le (.fld p.1) (.lit (cap : Int) false 32))]
+      | none => pure ()
   let recs ← getA j "rec"
   let limit := (getN j "enumLimit").toOption.getD 13
   let implFinal : Option (Array Int) := match getOpt j "implFinal" with
